@@ -183,3 +183,11 @@ def run(facts, res):
                 res.instance("M4", "unflatten: array element pushed only if the object was found (remove is Some) and reconstructed: %s" % ok, uf.loc(t.line))
                 if not ok:
                     res.violation("M4", "unflatten|push-unconditional", "unflatten pushes an array element that was not found in the collection", uf.loc(t.line))
+
+
+FIXTURE_EXPECT = ['merge_arrays|removes:retain']
+
+
+def thorough(res):
+    from .. import engine
+    engine.sensitivity("C06", res)
